@@ -14,20 +14,21 @@ open A2Verif.Fs.Prodos A2Verif.FsProdos
 /-- save and load, as one step on objects -/
 def reload (d : Disk) : Disk :=
   match save d with
-  | .ok b => load b
+  | .ok b => load d.src b
   | .error _ => d
 
 /-- what `load (save d)` is when the buffer `b` is open -/
-def closedTwin (d : Disk) (b : Array Nat) : Disk := { raw := flushedRaw d b, total := d.total, bitmap := none, bitmapBlocks := [] }
+def closedTwin (d : Disk) (b : Array Nat) : Disk :=
+  { raw := flushedRaw d b, total := d.total, bitmap := none, bitmapBlocks := [], src := d.src }
 /-- the closed twin after `open_bitmap_buffer` -/
 def openTwin (d : Disk) (b : Array Nat) : Disk :=
-  { raw := flushedRaw d b, total := d.total, bitmap := some b, bitmapBlocks := List.range' (bptrOf d.raw) (bitmapBlockCount d.total) }
+  { raw := flushedRaw d b, total := d.total, bitmap := some b, bitmapBlocks := List.range' (bptrOf d.raw) (d.bmCount), src := d.src }
 
 theorem flushed_size (d : Disk) (b : Array Nat) : (flushedRaw d b).units.size = d.raw.units.size := (wbRaw_size _ _ _ _).1
 
 theorem flushed_shaped {d : Disk} (h : Coh d) (b : Array Nat) : Shaped 512 (flushedRaw d b) := wbRaw_shaped _ _ _ _ h.shaped
 
-theorem flushed_other {d : Disk} (b : Array Nat) {u : Nat} (hu : u ∉ List.range' (bptrOf d.raw) (bitmapBlockCount d.total)) :
+theorem flushed_other {d : Disk} (b : Array Nat) {u : Nat} (hu : u ∉ List.range' (bptrOf d.raw) (d.bmCount)) :
     (flushedRaw d b).units[u]? = d.raw.units[u]? := wbRaw_other _ _ _ _ u hu
 
 theorem reload_open {d : Disk} {b : Array Nat} (h : Coh d) (hb : d.bitmap = some b) : reload d = closedTwin d b := by
@@ -49,7 +50,7 @@ theorem flush_closed {d : Disk} (hb : d.bitmap = none) : d.flush = (.ok (), d) :
   rw [hw]
 
 theorem reload_closed {d : Disk} (h : Coh d) (hb : d.bitmap = none) :
-    reload d = { raw := d.raw, total := d.total, bitmap := none, bitmapBlocks := [] } := by
+    reload d = { raw := d.raw, total := d.total, bitmap := none, bitmapBlocks := [], src := d.src } := by
   unfold reload save
   rw [flush_closed hb]
   simp only
@@ -58,7 +59,7 @@ theorem reload_closed {d : Disk} (h : Coh d) (hb : d.bitmap = none) :
   rw [ofBytes_toBytes h.shaped, h.total]
 
 theorem key_not_bitmap {d : Disk} {b : Array Nat} (h : Coh d) (hb : d.bitmap = some b) :
-    volKeyBlock ∉ List.range' (bptrOf d.raw) (bitmapBlockCount d.total) := by
+    volKeyBlock ∉ List.range' (bptrOf d.raw) (d.bmCount) := by
   obtain ⟨_, _, _, hk⟩ := h.buf b hb
   rw [List.mem_range'_1]
   omega
@@ -83,14 +84,14 @@ theorem reopen {d : Disk} {b : Array Nat} (h : Coh d) (hb : d.bitmap = some b) :
     rw [flushed_size]
     have : le16 (unitAt d.raw volKeyBlock) 39 = bptrOf d.raw := rfl
     show i < d.raw.units.size
-    have h2 : (closedTwin d b).total = d.total := rfl
+    have h2 : (closedTwin d b).bmCount = d.bmCount := rfl
     rw [this, h2] at hi
     omega)
   unfold getBitmap M.bind
   rw [ho]
   simp only [M.get, M.ofOption]
   have e1 : le16 (unitAt d.raw volKeyBlock) 39 = bptrOf d.raw := rfl
-  have e2 : (closedTwin d b).total = d.total := rfl
+  have e2 : (closedTwin d b).bmCount = d.bmCount := rfl
   have e3 : (closedTwin d b).raw = flushedRaw d b := rfl
   rw [e1, e2, e3, bufOf_flushed h hb]
   rfl
@@ -174,14 +175,14 @@ theorem RespQ.readBlock (i : Nat) : RespQ (Fs.Prodos.readBlock i) := by
   intro d b hc hb d' h
   obtain ⟨hl, hs, hin, _⟩ := hc.buf b hb
   -- the object itself
-  have hd : Fs.Prodos.readBlock i d = (if i ∈ List.range' (bptrOf d.raw) (bitmapBlockCount d.total)
+  have hd : Fs.Prodos.readBlock i d = (if i ∈ List.range' (bptrOf d.raw) (d.bmCount)
       then .ok ((b.toList.drop ((i - bptrOf d.raw) * 512)).take 512) else imgRead d.raw i, d) := by
     unfold Fs.Prodos.readBlock
     show M.bind M.get _ d = _
     unfold M.bind
     simp only [M.get, hl]
-    by_cases hi : i ∈ List.range' (bptrOf d.raw) (bitmapBlockCount d.total)
-    · have hc2 : (List.range' (bptrOf d.raw) (bitmapBlockCount d.total)).contains i = true := by simpa using hi
+    by_cases hi : i ∈ List.range' (bptrOf d.raw) (d.bmCount)
+    · have hc2 : (List.range' (bptrOf d.raw) (d.bmCount)).contains i = true := by simpa using hi
       rw [if_pos hi]
       simp only [hc2, if_true]
       show M.bind Fs.Prodos.getBitmap _ d = _
@@ -189,11 +190,11 @@ theorem RespQ.readBlock (i : Nat) : RespQ (Fs.Prodos.readBlock i) := by
       rw [getBitmap_open hb]
       simp only
       rw [List.mem_range'_1] at hi
-      have hh : (List.range' (bptrOf d.raw) (bitmapBlockCount d.total)).headD 0 = bptrOf d.raw := by
-        obtain ⟨n, hn⟩ : ∃ n, bitmapBlockCount d.total = n + 1 := ⟨bitmapBlockCount d.total - 1, by have := count_pos d.total; omega⟩
+      have hh : (List.range' (bptrOf d.raw) (d.bmCount)).headD 0 = bptrOf d.raw := by
+        obtain ⟨n, hn⟩ : ∃ n, d.bmCount = n + 1 := ⟨d.bmCount - 1, by have := count_pos hc; omega⟩
         rw [hn]; rfl
       rw [hh]
-      have hk : i - bptrOf d.raw < bitmapBlockCount d.total := by omega
+      have hk : i - bptrOf d.raw < d.bmCount := by omega
       have hle : (i - bptrOf d.raw) * blockSize + blockSize ≤ b.size := by
         rw [hs]; unfold blockSize
         have := Nat.mul_le_mul_right 512 (Nat.succ_le_of_lt hk)
@@ -202,7 +203,7 @@ theorem RespQ.readBlock (i : Nat) : RespQ (Fs.Prodos.readBlock i) := by
       rw [if_neg (by omega)]
       show (Except.ok _, d) = _
       rw [extract_chunk]
-    · have hc2 : (List.range' (bptrOf d.raw) (bitmapBlockCount d.total)).contains i = false := by simpa using hi
+    · have hc2 : (List.range' (bptrOf d.raw) (d.bmCount)).contains i = false := by simpa using hi
       rw [if_neg hi]
       simp only [hc2]
       rfl
@@ -220,10 +221,10 @@ theorem RespQ.readBlock (i : Nat) : RespQ (Fs.Prodos.readBlock i) := by
     rw [hc']
     refine ⟨?_, Or.inl rfl⟩
     simp only
-    by_cases hi : i ∈ List.range' (bptrOf d.raw) (bitmapBlockCount d.total)
+    by_cases hi : i ∈ List.range' (bptrOf d.raw) (d.bmCount)
     · rw [if_pos hi]
       rw [List.mem_range'_1] at hi
-      have hk : i - bptrOf d.raw < bitmapBlockCount d.total := by omega
+      have hk : i - bptrOf d.raw < d.bmCount := by omega
       have := unitAt_flushed hc hb hk
       rw [show bptrOf d.raw + (i - bptrOf d.raw) = i by omega] at this
       unfold imgRead
@@ -234,16 +235,16 @@ theorem RespQ.readBlock (i : Nat) : RespQ (Fs.Prodos.readBlock i) := by
   | inr h1 =>
     subst h1
     -- the open twin is itself a coherent object with the same buffer: same computation, other image
-    have ho : Fs.Prodos.readBlock i (openTwin d b) = (if i ∈ List.range' (bptrOf d.raw) (bitmapBlockCount d.total)
+    have ho : Fs.Prodos.readBlock i (openTwin d b) = (if i ∈ List.range' (bptrOf d.raw) (d.bmCount)
         then .ok ((b.toList.drop ((i - bptrOf d.raw) * 512)).take 512) else imgRead (flushedRaw d b) i, openTwin d b) := by
       unfold Fs.Prodos.readBlock
       show M.bind M.get _ _ = _
       unfold M.bind
       simp only [M.get]
-      have hl' : (openTwin d b).bitmapBlocks = List.range' (bptrOf d.raw) (bitmapBlockCount d.total) := rfl
+      have hl' : (openTwin d b).bitmapBlocks = List.range' (bptrOf d.raw) (d.bmCount) := rfl
       rw [hl']
-      by_cases hi : i ∈ List.range' (bptrOf d.raw) (bitmapBlockCount d.total)
-      · have hc2 : (List.range' (bptrOf d.raw) (bitmapBlockCount d.total)).contains i = true := by simpa using hi
+      by_cases hi : i ∈ List.range' (bptrOf d.raw) (d.bmCount)
+      · have hc2 : (List.range' (bptrOf d.raw) (d.bmCount)).contains i = true := by simpa using hi
         rw [if_pos hi]
         simp only [hc2, if_true]
         show M.bind Fs.Prodos.getBitmap _ _ = _
@@ -251,11 +252,11 @@ theorem RespQ.readBlock (i : Nat) : RespQ (Fs.Prodos.readBlock i) := by
         rw [getBitmap_open (d := openTwin d b) rfl]
         simp only
         rw [List.mem_range'_1] at hi
-        have hh : (List.range' (bptrOf d.raw) (bitmapBlockCount d.total)).headD 0 = bptrOf d.raw := by
-          obtain ⟨n, hn⟩ : ∃ n, bitmapBlockCount d.total = n + 1 := ⟨bitmapBlockCount d.total - 1, by have := count_pos d.total; omega⟩
+        have hh : (List.range' (bptrOf d.raw) (d.bmCount)).headD 0 = bptrOf d.raw := by
+          obtain ⟨n, hn⟩ : ∃ n, d.bmCount = n + 1 := ⟨d.bmCount - 1, by have := count_pos hc; omega⟩
           rw [hn]; rfl
         rw [hh]
-        have hk : i - bptrOf d.raw < bitmapBlockCount d.total := by omega
+        have hk : i - bptrOf d.raw < d.bmCount := by omega
         have hle : (i - bptrOf d.raw) * blockSize + blockSize ≤ b.size := by
           rw [hs]; unfold blockSize
           have := Nat.mul_le_mul_right 512 (Nat.succ_le_of_lt hk)
@@ -264,14 +265,14 @@ theorem RespQ.readBlock (i : Nat) : RespQ (Fs.Prodos.readBlock i) := by
         rw [if_neg (by omega)]
         show (Except.ok _, _) = _
         rw [extract_chunk]
-      · have hc2 : (List.range' (bptrOf d.raw) (bitmapBlockCount d.total)).contains i = false := by simpa using hi
+      · have hc2 : (List.range' (bptrOf d.raw) (d.bmCount)).contains i = false := by simpa using hi
         rw [if_neg hi]
         simp only [hc2]
         rfl
     rw [ho]
     refine ⟨?_, Or.inr rfl⟩
     simp only
-    by_cases hi : i ∈ List.range' (bptrOf d.raw) (bitmapBlockCount d.total)
+    by_cases hi : i ∈ List.range' (bptrOf d.raw) (d.bmCount)
     · rw [if_pos hi, if_pos hi]
     · rw [if_neg hi, if_neg hi]
       unfold imgRead
